@@ -809,8 +809,17 @@ def NoProjOverProj (p : Program) : Prop :=
   ∀ (k : Key) (d : NodeDef), p[k]? = some d → d.kind = .projection →
     ProgAll (fun x => kindOf p x = some .firewall) d.prog
 
-/-- the two program classes the C01 / C03 theorems of the extended core model are proved for -/
-def Shape (p : Program) : Prop := NoProjOverProj p ∨ StaticProj p
+/-- the executor of the key has a value-independent read sequence -/
+def IsStaticKey (p : Program) (x : Key) : Prop := ∃ d ks, p[x]? = some d ∧ ProgStatic d.prog ks
+
+/-- the program class the C01 / C03 theorems of the extended core model are proved for: EVERY PROJECTION
+    THAT IS READ BY A PROJECTION HAS A VALUE-INDEPENDENT READ SEQUENCE — a projection reads firewalls and
+    static projections only; its own reads may depend on the values it reads (dynamic projections sit on
+    top of the projection chains).  Contains `NoProjOverProj` (no projection reads a projection) and
+    `StaticProj` (every projection is static). -/
+def Shape (p : Program) : Prop :=
+  ∀ (k : Key) (d : NodeDef), p[k]? = some d → d.kind = .projection →
+    ProgAll (fun x => kindOf p x = some .firewall ∨ (kindOf p x = some .projection ∧ IsStaticKey p x)) d.prog
 
 -- ------------------------------------------------------------------ bridge from the full model's programs
 
